@@ -217,6 +217,10 @@ structure Cfg where
   broadcastAssigned : Bool
   /-- Solaris `_proc_basic_info`: the AccessDenied for an unreadable PID 0 carries the cached name -/
   sunosPid0Named : Bool
+  /-- Windows `memory_maps()`: every `convert_dos_path(...)` of the per-mapping loop sits inside the
+      `try` whose `except OSError` does `raise convert_oserror(err, self.pid, self._name)` (true), or
+      only the first native call does (false) -/
+  winMapsLoopGuarded : Bool
 
 def wrapExceptions (cfg : Cfg) (f : Family) (e : Err) (env : Env) : Outcome :=
   runClauses f cfg.win e env (cfg.clauses f)
@@ -236,12 +240,12 @@ inductive Inner
   | einvalProbe          -- NetBSD cmdline: EINVAL → zombie? → Zombie; not pid_exists → NSP; else []
   | viaWrappedHelper     -- undecorated method whose only native calls go through a decorated method
   | handConverted        -- undecorated; `except OSError: raise convert_oserror(err, pid, name)` by hand
-  | bare                 -- undecorated; nothing translates the error
+  | bare                 -- undecorated generator; the call is outside its hand-written `try`
   deriving DecidableEq, Repr
 
 /-- which handler a native call sits under, per platform / method / callee.
     Source: the `try` statements of the five modules (line numbers in notes/C20.md). -/
-def inner (p : Platform) (meth call : String) : Inner :=
+def inner (cfg : Cfg) (p : Platform) (meth call : String) : Inner :=
   match p with
   | .netbsd =>
     if meth == "exe" && call == "os.readlink" then .procfsWrap
@@ -267,7 +271,9 @@ def inner (p : Platform) (meth call : String) : Inner :=
     else if meth == "num_handles" && call == "proc_num_handles" then .absorbedIfPerm
     else if meth == "name" then .viaWrappedHelper
     else if meth == "memory_maps" && call == "proc_memory_maps" then .handConverted
-    else if meth == "memory_maps" || meth == "ppid" then .bare
+    else if meth == "memory_maps" then (if cfg.winMapsLoopGuarded then .handConverted else .bare)
+    -- `ppid`: its only handler is `except KeyError`; an OSError leaves the body and meets the
+    -- decorator if the method has one (`escape`), nothing otherwise
     else .escapes
 
 /-- (module, method) pairs that contain an OSError-capable handler according to this
@@ -314,7 +320,7 @@ inductive Body
 def body (cfg : Cfg) (p : Platform) (m : Method) (call : String) (e : Err) (env : Env)
     (persistent : Bool) : Body :=
   let f := p.family
-  match inner p m.name call with
+  match inner cfg p m.name call with
   | .escapes => .leaves e
   | .absorbed => .settled .value
   | .absorbedIfPerm => if isPermissionErr cfg.win e then .settled .value else .leaves e
